@@ -240,6 +240,30 @@ func runC07(c *Ctx) {
 			}
 			before = append(before, e)
 		}
+		// the masked copy may have been prepared in another local array and assigned as a whole (a helper
+		// returning the array by value, inlined back): follow whole-array assignments between locals
+		for hop := 0; hop < 3 && len(before) == 1 && before[0].Kind == "store-whole"; hop++ {
+			ld, ok := unspill(before[0].Val).(*ssa.UnOp)
+			if !ok || ld.Op != token.MUL {
+				break
+			}
+			b2, ok := ld.X.(*ssa.Alloc)
+			if !ok {
+				break
+			}
+			var pre []arrEff
+			for _, e := range arrayEffects(p, dec, b2) {
+				if e.In == ssa.Instruction(ld) || (e.In != nil && !instrDominates(e.In, ld)) {
+					break
+				}
+				pre = append(pre, e)
+			}
+			// the load itself shows up as a read: drop trailing reads
+			for len(pre) > 0 && strings.HasPrefix(pre[len(pre)-1].Kind, "read") {
+				pre = pre[:len(pre)-1]
+			}
+			before = pre
+		}
 		if len(before) != 2 || (before[0].Kind != "copy-into" && before[0].Kind != "store-whole") || before[1].Kind != "store" || before[1].Idx != 31 {
 			bad = "the buffer is prepared by [" + effKinds(before) + "], expected copy of the input then an update of byte 31"
 			return
